@@ -136,3 +136,70 @@ func runLoadMatrix(g *hc.Gen, scratch string, thorough bool, cs *childStats, sig
 		}
 	}
 }
+
+// Correlated sub-queries with many distinct outer-column references: the outer record's field-index cache
+// passes 8 entries (and changes its representation) before the sub-query starts, the sub-query's workers
+// then resolve further outer references concurrently.  Both regimes: outer table below / above the size
+// that is split over several workers, inner table always above it.
+func runCorrelated(g *hc.Gen, scratch string, thorough bool, cs *childStats, sigs map[string]bool) {
+	repo, err := os.MkdirTemp(scratch, "c13corr-")
+	if err != nil {
+		panic(err)
+	}
+	defer os.RemoveAll(repo)
+	wide := func(rows int) []byte {
+		ls := []string{"id,k1,k2,k3,k4,k5,k6,k7,k8,k9,k10,k11,k12"}
+		for i := 1; i <= rows; i++ {
+			l := fmt.Sprintf("%d", i)
+			for k := 0; k < 12; k++ {
+				l += fmt.Sprintf(",%d", g.Intn(7))
+			}
+			ls = append(ls, l)
+		}
+		return []byte(strings.Join(ls, "\n") + "\n")
+	}
+	_ = os.WriteFile(filepath.Join(repo, "wsmall.csv"), wide(70), 0o644)
+	_ = os.WriteFile(filepath.Join(repo, "wbig.csv"), wide(200), 0o644)
+	in := []string{"id,grp,v"}
+	for i := 1; i <= 230; i++ {
+		in = append(in, fmt.Sprintf("%d,%d,%d", i, g.Intn(7), g.Intn(7)))
+	}
+	_ = os.WriteFile(filepath.Join(repo, "inn.csv"), []byte(strings.Join(in, "\n")+"\n"), 0o644)
+	pre := "o.k1 + o.k2 + o.k3 + o.k4 + o.k5 + o.k6 + o.k7 + o.k8 + o.k9 + o.k10 >= 0"
+	forms := []struct{ name, sql string }{
+		{"exists", "SELECT o.id FROM %s o WHERE " + pre + " AND EXISTS (SELECT 1 FROM inn i WHERE i.grp = o.k11 AND i.v > o.k12)"},
+		{"in", "SELECT o.id FROM %s o WHERE " + pre + " AND o.id IN (SELECT i.id FROM inn i WHERE i.grp = o.k11 AND i.v <= o.k12)"},
+		{"scalar", "SELECT o.id, o.k1 + o.k2 + o.k3 + o.k4 + o.k5 + o.k6 + o.k7 + o.k8 + o.k9, (SELECT COUNT(*) FROM inn i WHERE i.grp = o.k10 AND i.v < o.k11 + o.k12) FROM %s o"},
+		{"exists_group", "SELECT o.k1, COUNT(*) FROM %s o WHERE o.k2 + o.k3 + o.k4 + o.k5 + o.k6 + o.k7 + o.k8 + o.k9 + o.k10 >= 0 AND NOT EXISTS (SELECT 1 FROM inn i WHERE i.id = o.id AND i.grp = o.k11 AND i.v = o.k12) GROUP BY o.k1"},
+	}
+	rot := 0
+	for _, outer := range []string{"wsmall", "wbig"} {
+		for _, f := range forms {
+			cpus := []int{[]int{2, 4, 8}[rot%3]}
+			rot++
+			if thorough {
+				cpus = []int{2, 4, 8}
+			}
+			for _, cpu := range cpus {
+				pr := hc.NewProc(repo)
+				sql := fmt.Sprintf("SET @@CPU TO %d; %s;", cpu, fmt.Sprintf(f.sql, outer))
+				_, err := pr.Exec(sql)
+				pr.Close()
+				cs.Queries++
+				kind := "correlated:" + f.name + ":" + outer
+				cs.Kinds[kind]++
+				if err != nil {
+					cs.Errors[fmt.Sprintf("%s:%d", kind, hc.ErrCode(err))]++
+					if len(cs.Samples) < 12 {
+						cs.Samples = append(cs.Samples, "ERROR "+kind+": "+strings.SplitN(err.Error(), "\n", 2)[0])
+					}
+				}
+				sig := fmt.Sprintf("%s/cpu%d", kind, cpu)
+				if !sigs[sig] {
+					sigs[sig] = true
+					cs.Sigs = append(cs.Sigs, sig)
+				}
+			}
+		}
+	}
+}
